@@ -49,6 +49,8 @@ pub struct Dir {
     pub tysubst: Vec<(String, String)>,
     pub rename: Option<String>,
     pub ghost_fields: Vec<String>,
+    pub derive_default: Option<String>,
+    pub ghost_inits: Vec<(Vec<String>, String)>, // `//@ghost-init A|Self field: expr`: extra field in every literal of A (R28)
     pub external_body: bool,
     pub novis: bool,
     pub dropgenerics: bool,
@@ -277,6 +279,11 @@ fn parse_template(t: &str) -> Vec<Result<String, Dir>> {
                 }
                 "rename" => d.rename = Some(arg.to_string()),
                 "ghost-field" => d.ghost_fields.push(arg.to_string()),
+                "derive-default" => d.derive_default = Some(arg.to_string()),
+                "ghost-init" => {
+                    let (names, init) = arg.split_once(' ').unwrap_or_else(|| die("template", "ghost-init Type[|Self] field: expr"));
+                    d.ghost_inits.push((names.split('|').map(|x| x.to_string()).collect(), init.trim().to_string()));
+                }
                 "external_body" => d.external_body = true,
                 "external_body_if" => {
                     // contract sharing between units: the unit that *verifies* the function includes the block as is,
@@ -714,7 +721,34 @@ fn process_adt(src: &str, d: &Dir) -> StructOut {
     }
     text.push_str(&t[pos..]);
     // drop blank lines left by removed attributes
-    let text: String = text.lines().filter(|l| !l.trim().is_empty()).map(|l| format!("{}\n", l)).collect();
+    let mut text: String = text.lines().filter(|l| !l.trim().is_empty()).map(|l| format!("{}\n", l)).collect();
+    // R27: `#[derive(Default)]` (stripped with the other attributes) rendered as what the language defines it to be:
+    // `impl Default` building every field from its own `Default::default()`; the postcondition comes from the template.
+    // Dies (anchor lost) when the struct in /repo no longer derives Default.
+    if let Some(ens) = &d.derive_default {
+        if let syn::Item::Struct(st) = &item {
+            let derives_default = st.attrs.iter().any(|a| {
+                let t = norm(&quote::ToTokens::to_token_stream(a).to_string());
+                t.starts_with("#[derive(") && t[9..].trim_end_matches(")]").split(',').any(|x| x == "Default")
+            });
+            if !derives_default {
+                die("anchor-lost", &format!("{}: no #[derive(Default)] on the struct any more", d.item));
+            }
+            let fields: Vec<String> = match &st.fields {
+                syn::Fields::Named(n) => n.named.iter().filter(|f| !f.attrs.iter().any(|a| attr_is(a, "#[cfg(test)]"))).map(|f| f.ident.as_ref().unwrap().to_string()).collect(),
+                _ => die("unsupported", "derive-default on a non-named struct"),
+            };
+            if !st.generics.params.is_empty() {
+                die("unsupported", "derive-default on a generic struct");
+            }
+            let name = st.ident.to_string();
+            let _ = writeln!(text, "impl Default for {} {{\n    fn default() -> (r: Self)\n        ensures {}\n    {{ {} {{ {} }} }}\n}}", name, ens.trim_end_matches(','),
+                name, fields.iter().map(|f| format!("{}: Default::default()", f)).collect::<Vec<_>>().join(", "));
+            *rules.entry("R27".to_string()).or_insert(0) += 1;
+        } else {
+            die("unsupported", "derive-default on a non-struct");
+        }
+    }
     StructOut { text, rules }
 }
 
@@ -897,6 +931,20 @@ impl<'ast> Visit<'ast> for LoopFinder {
     }
 }
 
+struct LitFinder {
+    names: Vec<String>,
+    closes: Vec<(usize, bool)>,
+}
+impl<'ast> Visit<'ast> for LitFinder {
+    fn visit_expr_struct(&mut self, e: &'ast syn::ExprStruct) {
+        let last = e.path.segments.last().map(|s| s.ident.to_string()).unwrap_or_default();
+        if self.names.iter().any(|n| *n == last) && e.rest.is_none() {
+            self.closes.push((br(e.brace_token.span.close()).start, e.fields.empty_or_trailing()));
+        }
+        syn::visit::visit_expr_struct(self, e);
+    }
+}
+
 struct StmtFinder {
     pos: usize,
     all: Vec<Range<usize>>,
@@ -1000,6 +1048,16 @@ fn process_fn(src_with_attrs: &str, d: &Dir, loc: &Located) -> FnOut {
         }
         if !entry.is_empty() {
             edits.push((open.end..open.end, entry));
+        }
+        // R28: a struct that carries a ghost field in its unit (`//@ghost-field`) is built by literals in /repo that
+        // cannot know the field: the template's initialiser is appended to every such literal of this function
+        for (names, init) in &d.ghost_inits {
+            let mut lf = LitFinder { names: names.clone(), closes: vec![] };
+            lf.visit_impl_item_fn(&f);
+            for (close, trailing) in lf.closes {
+                edits.push((close..close, format!("{} {} ", if trailing { "" } else { "," }, init)));
+                *rules.entry("R28".into()).or_insert(0) += 1;
+            }
         }
         let mut lf = LoopFinder { braces: vec![], for_exprs: vec![] };
         lf.visit_impl_item_fn(&f);
